@@ -56,8 +56,30 @@ fn point_pool<M: Model, R: Conv<M::F>>(ctx: &Ctx<M, R>, rep: &mut Report, rng: &
 }
 
 pub fn points<M: Model, R: Conv<M::F>>(ctx: &Ctx<M, R>, rep: &mut Report, rng: &mut Rng, base_points: &[OP<R::El>], enumerated: bool) {
-    let pool = point_pool(ctx, rep, rng, base_points);
-    let affs: Vec<M::A> = pool.iter().map(|(p, _)| ctx.aff(p)).collect();
+    let mut pool = point_pool(ctx, rep, rng, base_points);
+    // affine representatives, each obtained through a different public route (they must all be the same value:
+    // Eq and Hash of the affine types are derived over the stored fields, so a route that leaves different
+    // junk in the coordinates of the identity, or a different flag, shows up here)
+    let batch: Vec<M::A> = <M::G as CurveGroup>::normalize_batch(&pool.iter().map(|(_, g)| *g).collect::<Vec<_>>());
+    let mut affs: Vec<M::A> = pool
+        .iter()
+        .enumerate()
+        .map(|(i, (p, g))| match i % 4 {
+            0 => ctx.aff(p),
+            1 => g.into_affine(),
+            2 => batch[i],
+            _ => <M::A as From<M::G>>::from(*g),
+        })
+        .collect();
+    // the identity through every constructor there is
+    if let Some(idp) = base_points.iter().find(|p| ctx.cur.is_identity(p)) {
+        rep.class("pool: affine identity through zero() / default() / identity() / into_affine() / normalize_batch()");
+        let g0 = <M::G as ark_std::Zero>::zero();
+        for a in [<M::A as AffineRepr>::zero(), <M::A as Default>::default(), M::aff_identity(), g0.into_affine(), (g0 + M::A::generator() - M::A::generator()).into_affine()] {
+            pool.push((idp.clone(), g0));
+            affs.push(a);
+        }
+    }
     let sig = |kind: &str| format!("group/{}/eqhash/{}", ctx.name, kind);
     let hashes: Vec<u64> = pool.iter().map(|(_, g)| h(g)).collect();
     let ahashes: Vec<u64> = affs.iter().map(h).collect();
@@ -231,6 +253,107 @@ pub fn polys<F: PrimeField>(name: &str, rep: &mut Report, rng: &mut Rng, n: usiz
     rep.sample(&format!("c19/poly/{name}"), || json!({"field": name, "pool": pool.len(), "distinct": by_value.len()}));
 }
 
+/// Multivariate sparse polynomials: the oracle identity is the map {normalised monomial -> non-zero coefficient};
+/// each pool entry reaches the same polynomial through a different history (term lists with duplicates, zero
+/// coefficients and unordered variables; p+q-q; scaled adds that cancel; scaled add with factor zero; a larger
+/// declared number of variables, which the library's `==` ignores on purpose).
+pub fn mvpolys<F: PrimeField>(name: &str, rep: &mut Report, rng: &mut Rng, n: usize) {
+    use ark_poly::multivariate::{SparsePolynomial as MvPoly, SparseTerm, Term};
+    use ark_poly::DenseMVPolynomial;
+    type Mono = Vec<(usize, usize)>;
+    rep.config(&format!("multivariate sparse polynomials over {name}"));
+    let build = |nv: usize, m: &BTreeMap<Mono, F>| -> MvPoly<F, SparseTerm> {
+        MvPoly::from_coefficients_vec(nv, m.iter().map(|(t, c)| (*c, SparseTerm::new(t.clone()))).collect())
+    };
+    let rand_map = |rng: &mut Rng, nv: usize, terms: usize| -> BTreeMap<Mono, F> {
+        let mut m = BTreeMap::new();
+        for _ in 0..terms {
+            let mut t: BTreeMap<usize, usize> = BTreeMap::new();
+            for _ in 0..rng.next_u32() % 4 {
+                *t.entry(rng.next_u32() as usize % nv).or_insert(0) += 1 + rng.next_u32() as usize % 3;
+            }
+            let c = F::from(1 + rng.next_u32() as u64 % 5);
+            m.insert(t.into_iter().collect::<Mono>(), c);
+        }
+        m
+    };
+    let mut pool: Vec<(BTreeMap<Mono, F>, MvPoly<F, SparseTerm>)> = vec![(BTreeMap::new(), MvPoly::zero())];
+    for it in 0..n {
+        let nv = 1 + rng.next_u32() as usize % 4;
+        let (ta, tb) = (rng.next_u32() as usize % 5, 1 + rng.next_u32() as usize % 4);
+        let ma = rand_map(rng, nv, ta);
+        let mb = rand_map(rng, nv, tb);
+        let (pa, pb) = (build(nv, &ma), build(nv, &mb));
+        pool.push((ma.clone(), pa.clone()));
+        // term list with split coefficients, zero coefficients, unordered variables and reversed order
+        let mut raw: Vec<(F, SparseTerm)> = vec![];
+        for (t, c) in &ma {
+            let mut tt = t.clone();
+            tt.reverse();
+            if let Some(&(v, pw)) = tt.first() {
+                if pw > 1 {
+                    tt[0] = (v, pw - 1);
+                    tt.push((v, 1));
+                }
+            }
+            let c1 = F::from(rng.next_u32() as u64);
+            raw.push((c1, SparseTerm::new(tt.clone())));
+            raw.push((*c - c1, SparseTerm::new(tt)));
+        }
+        raw.push((F::zero(), SparseTerm::new(vec![(0, 7)])));
+        raw.reverse();
+        pool.push((ma.clone(), MvPoly::from_coefficients_vec(nv, raw)));
+        pool.push((ma.clone(), &(&pa + &pb) - &pb));
+        pool.push((ma.clone(), -(-pa.clone())));
+        let f = F::from(2 + rng.next_u32() as u64 % 9);
+        let mut t = pa.clone();
+        t += (f, &pb);
+        t += (-f, &pb);
+        pool.push((ma.clone(), t));
+        let mut t = pa.clone();
+        t += (F::zero(), &pb);
+        rep.class("mv poly: scaled add with factor zero");
+        pool.push((ma.clone(), t));
+        let mut t = pa.clone();
+        t -= &pb;
+        t += &pb;
+        pool.push((ma.clone(), t));
+        // the same polynomial declared over one more variable
+        pool.push((ma.clone(), build(nv + 1, &ma)));
+        if it % 3 == 0 {
+            rep.class("mv poly: identically zero through cancellation");
+            pool.push((BTreeMap::new(), &pa - &pa));
+            let mut z = MvPoly::<F, SparseTerm>::zero();
+            z += (F::zero(), &pb);
+            pool.push((BTreeMap::new(), z));
+        }
+    }
+    for (i, (ca, x)) in pool.iter().enumerate() {
+        for (j, (cb, y)) in pool.iter().enumerate() {
+            let same = ca == cb;
+            rep.eval(digest(&(name, "mvpoly", i, j, h(x), h(y))), i != j);
+            rep.class(if same { "pair: same multivariate polynomial through different histories" } else { "pair: different multivariate polynomials" });
+            if (x == y) != same || (same && h(x) != h(y)) {
+                let show = |m: &BTreeMap<Mono, F>| m.iter().map(|(t, c)| format!("{c}*{t:?}")).collect::<Vec<_>>();
+                rep.violation(
+                    format!("poly/multivariate-sparse/eqhash/{}", if (x == y) != same { "eq" } else { "hash" }),
+                    json!({"field": name, "a": show(ca), "b": show(cb), "a_num_vars": x.num_vars, "b_num_vars": y.num_vars,
+                           "a_stored_terms": x.terms.len(), "b_stored_terms": y.terms.len(), "eq": x == y, "same_polynomial": same}),
+                );
+            }
+        }
+        if x.is_zero() != ca.is_empty() {
+            rep.violation("poly/multivariate-sparse/eqhash/is_zero".to_string(), json!({"field": name, "stored_terms": x.terms.len()}));
+        }
+    }
+    let distinct: HashSet<&BTreeMap<Mono, F>> = pool.iter().map(|(c, _)| c).collect();
+    let hs: HashSet<MvPoly<F, SparseTerm>> = pool.iter().map(|(_, p)| p.clone()).collect();
+    if hs.len() != distinct.len() {
+        rep.violation("poly/multivariate-sparse/eqhash/set-cardinality".to_string(), json!({"field": name, "hash_set": hs.len(), "distinct": distinct.len()}));
+    }
+    rep.sample(&format!("c19/mvpoly/{name}"), || json!({"field": name, "pool": pool.len(), "distinct": distinct.len()}));
+}
+
 pub fn items(args: &Args) -> Vec<Item> {
     use cfgs::shipped::*;
     let mut v: Vec<Item> = vec![];
@@ -283,6 +406,12 @@ pub fn items(args: &Args) -> Vec<Item> {
     }));
     v.push(Item::new("c19/poly/bn254::Fr", move |rep, rng, _| polys::<bn254::Fr>("bn254::Fr", rep, rng, pn)));
     v.push(Item::new("c19/poly/t97", move |rep, rng, _| polys::<cfgs::grid::t97::D>("grid/t97", rep, rng, pn)));
+    v.push(Item::new("c19/mvpoly/bls12_381::Fr", move |rep, rng, _| {
+        rep.require("mv poly: scaled add with factor zero");
+        rep.require("mv poly: identically zero through cancellation");
+        mvpolys::<bls12_381::Fr>("bls12_381::Fr", rep, rng, pn)
+    }));
+    v.push(Item::new("c19/mvpoly/t97", move |rep, rng, _| mvpolys::<cfgs::grid::t97::D>("grid/t97", rep, rng, pn)));
     v.sort_by_key(|i| !i.name.contains("/gt/"));
     v
 }
